@@ -1,17 +1,17 @@
-(* C13 oracle and non-triviality on wiring cases. Correspondence: Corr/Wiring.v [wcheck];
+(* C13 oracle and non-triviality on wiring cases. Correspondence: Corr/Wiring.v [wcheck_obs];
    oracles: Corr/WiringOracles.v (static scenario data + the implementation's observation only). *)
 From Coq Require Import List Arith Bool.
 From IocVerif Require Import Model.App Corr.Wiring Corr.WiringOracles.
 Import ListNotations.
 
-Definition check_case : wcase -> bool := wcheck.
+Definition check_case : wcase -> bool := wcheck_obs.
 
 (* every runner once, in contract order, after all eager initialisation; stop at the first failing runner *)
 Definition oracle_case (c : wcase) : bool := oracle_runners c.
 
 Definition nontrivial (c : wcase) : bool := (2 <=? length (runner_names c)) || negb (forallb (fun n => negb (runner_fails (w_scn c) n)) (runner_names c)).
 
-Definition mismatches (cs : list wcase) : list nat := wmismatches cs.
+Definition mismatches (cs : list wcase) : list nat := wmismatches_obs cs.
 Definition violations (cs : list wcase) : list nat :=
   map w_id (filter (fun c => negb (oracle_case c)) cs).
 Definition count_nontrivial (cs : list wcase) : list nat := [length (filter nontrivial cs)].
